@@ -198,6 +198,8 @@ def random_run(am, cfg, rng, nevents):
         else:
           ts = now + rng.randint(1, 2 * cfg['F'])           # ahead of the clock
         ts = max(0, ts)
+        if r >= 0.8 and r < 0.9 and rng.random() < 0.4:
+          ts = -rng.randint(1, 2 * cfg['F'] + 1)            # from before the epoch (interval starts are still aligned downwards)
         if rng.random() < 0.1:
           run.input(rng.randint(1, NS), ts, 0, selfnamed=True)
           vid -= 1
